@@ -32,7 +32,7 @@ META = {
         "real": ["front end", "Grammar.fuzz / node fuzzers", "PopulationManager (refill, fix_individual)", "Evaluator (fitness arithmetic, caches, solution set)", "constraint classes and suggestions", "SimpleMutation", "SimpleSubtreeCrossover", "AdaptiveTuner", "DerivationTree.replace_multiple", "generators (grammar.generate / populate_sources)"],
         "stub": ["generator call-backs and constraint helper code are harness-provided (ledger decides value / misfit / raise per invocation)"],
     },
-    "expected_probes": ["solution_emitted", "crossover_changed_tree", "mutation_changed_tree", "repair_changed_tree", "cache_hit_evaluation", "raising_constraint_evaluated", "generator_invoked", "generator_fault", "consumer_stopped_early", "perfect_tree_evaluated", "inexact_pair"],
+    "expected_probes": ["plain_fuzz_run", "plain_fuzz_bytes", "plain_fuzz_bits", "two_call_run", "d2_run", "independent_evaluator_rebuilt", "solution_emitted", "crossover_changed_tree", "mutation_changed_tree", "repair_changed_tree", "cache_hit_evaluation", "raising_constraint_evaluated", "generator_invoked", "generator_fault", "consumer_stopped_early", "perfect_tree_evaluated", "inexact_pair"],
     "bounds": {"population": "2..20", "generations": "1..6", "max_nodes": "20..80", "h": "0..7 (+ inexact pairs up to 7)", "r": "0..7"},
     "assumptions": ["the independent evaluator is a second spec object built from the same text (constraint semantics themselves are C07, not claimed); for simple templates a harness-side predicate is checked as well"],
 }
@@ -122,6 +122,8 @@ class Monitor:
         self.reported: set = set()
         self.surfaced: set = set()
         self.evaluator_yields: list = []
+        self.n_independent = 0
+        self.fresh_every = 1 if run.prop == "C11" else 7
 
     # ---- exception sink -------------------------------------------------------
     def on_exception(self, e, note):
@@ -152,6 +154,14 @@ class Monitor:
         self.in_oracle = True
         before = self.exc_during_eval
         try:
+            self.n_independent += 1
+            if self.fresh_every and self.n_independent % self.fresh_every == 0:
+                # brand-new constraint objects, new Python globals, empty caches -- not merely cleared caches
+                self.ev = fresh_spec(self.text)
+                self.ev_constraints = list(self.ev.constraints)
+                if self.spec.extra_constraints:
+                    self.ev_constraints += self.ev._parse_extra_constraints(self.spec.extra_constraints, "<start>")
+                self.run.probe("independent_evaluator_rebuilt")
             t = copy.deepcopy(tree)
             self.ev.grammar.populate_sources  # noqa  (sources are copied with the tree)
             clear_constraint_caches(self.ev_constraints)
@@ -242,6 +252,11 @@ def run(run: Run) -> None:
     from fandango.evolution.mutation import SimpleMutation
 
     ch, cfg = run.ch, run.cfg
+    mode = ch.weighted([14, 3, 3], "cfg", "searchsim-mode")
+    if mode == 1:
+        return _plain_fuzz_run(run)
+    if mode == 2:
+        return _two_call_run(run)
     spec = S.gen_searchspec(ch, cfg.get("spec", {}))
     text = spec.to_fan()
     run.event("spec", text, spec.extra_constraints)
@@ -471,6 +486,108 @@ def run(run: Run) -> None:
     run.info = {"h": spec.h, "r": spec.r, "evaluated": mon.evaluated, "emitted": len(emitted), "changed": dict(changed)}
     run.state((spec.h, spec.r, tuple(sorted({c["kind"] for c in spec.cons})), pop > 8, tuple(k for k, v in changed.items() if v), min(len(emitted), 3)))
     run.nontrivial = (len(emitted) > 0 or mon.evaluated >= 20) and sum(changed.values()) > 0
+
+
+def _plain_fuzz_run(run: Run) -> None:
+    """Plain grammar fuzzing and constraint-free search over SpecGen grammars of every mode (text,
+    bytes, bits): each produced tree must be a derivation of the AST and serialise to the fold of
+    its leaves (C01); produced twice from one object, results must not alias (C10)."""
+    from gen.grammar import gen_grammar, word_of
+    from simfw.registry import GRAMMAR_DEFAULT
+
+    ch = run.ch
+    g = gen_grammar(ch, dict(GRAMMAR_DEFAULT, utf8=True, ambiguous_regex=False, computed_reps=False))
+    text = g.to_fan()
+    run.event("spec", text)
+    random.seed(ch.product_seed())
+    f = fresh_spec(text)
+    run.probe("plain_fuzz_run")
+    run.probe("plain_fuzz_" + g.mode)
+    starts = [n for n in g.rules if n != "bit"]
+    n = ch.rng_range(3, 12, "work", "n-fuzz")
+    run.op("plain fuzzing of a %s grammar with %d rule(s), %d tree(s)" % (g.mode, len(g.rules), n))
+    trees = []
+    for i in range(n):
+        start = "start" if not ch.coin(0.3, "work", "otherstart") else ch.pick(starts, "work", "start")
+        t = f.grammar.fuzz("<%s>" % start, ch.pick([20, 5, 50, 100], "work", "max-nodes"))
+        trees.append(t)
+        run.steps += 1
+        model = deriv.to_model(t)
+        err = deriv.check_derivation(g, model, start)
+        run.event("fuzz", start, model_digest(model))
+        if err:
+            run.violation("C01", "not-a-derivation", "not-a-derivation:grammar-fuzz:" + g.mode, "Grammar.fuzz(<%s>) produced a tree that is not a derivation: %s\nspec:\n%s" % (start, err, text))
+            continue
+        try:
+            want = word_of(model, g.mode)
+        except AssertionError:
+            continue
+        got = str(t) if g.mode == "text" else bytes(t)
+        if got != want:
+            run.violation("C01", "serialisation-differs", "emitted-serialisation-differs-from-leaves:" + g.mode, "tree serialises to %r, its leaves spell %r\nspec:\n%s" % (got, want, text))
+    if ch.coin(0.5, "work", "also-search"):
+        from fandango.errors import FandangoError
+
+        try:
+            sols = f.fuzz(desired_solutions=ch.rng_range(2, 8, "work", "n-sol"), max_generations=2, population_size=ch.pick([6, 3, 12], "cfg", "population"))
+        except FandangoError as e:
+            # e.g. the diversity bonus compares a bit terminal with a byte string and raises
+            # FandangoConversionError on grammars that mix bits and bytes: a crash, not a C01 matter
+            run.probe("search_raised_on_plain_grammar")
+            run.op("fuzz() raised %s: %s" % (type(e).__name__, norm(str(e))[:80]))
+            sols = []
+        for sol in sols:
+            model = deriv.to_model(sol)
+            err = deriv.check_derivation(g, model, "start")
+            run.probe("solution_emitted")
+            if err:
+                run.violation("C01", "not-a-derivation", "not-a-derivation:emitted:" + g.mode, "fuzz() emitted a tree that is not a derivation: %s\nspec:\n%s" % (err, text))
+    run.nontrivial = len(trees) >= 3
+    run.info = {"mode": g.mode, "trees": len(trees)}
+    run.state(("plain", g.mode, len(g.rules)))
+
+
+def _two_call_run(run: Run) -> None:
+    """The public fuzz() API called twice on ONE Fandango object with different command-line style
+    extra constraints (and equal or different settings): every solution of each call must satisfy
+    the spec's constraints plus the extra constraints of *that* call (C02)."""
+    ch, cfg = run.ch, run.cfg
+    spec = S.gen_searchspec(ch, dict(cfg.get("spec", {}), generators=False, raising_rate=0.0, max_h=2, max_r=1, inexact_pair_rate=0.0))
+    text = spec.to_fan()
+    run.event("spec", text)
+    random.seed(ch.product_seed())
+    run.probe("two_call_run")
+    f = fresh_spec(text)
+    extras = [
+        ("int(<fa>) % 2 == 1", lambda m: all(int(a) % 2 == 1 for a in S._texts(m, "fa"))),
+        ("int(<fa>) % 2 == 0", lambda m: all(int(a) % 2 == 0 for a in S._texts(m, "fa"))),
+        ("int(<fb>) > 500", lambda m: all(int(b) > 500 for b in S._texts(m, "fb"))),
+        ("str(<fc>).startswith('b')", lambda m: all(c.startswith("b") for c in S._texts(m, "fc"))),
+    ]
+    same_settings = bool(ch.draw(2, "cfg", "same-settings"))
+    base = dict(population_size=ch.pick([8, 4, 16], "cfg", "population"), max_generations=ch.pick([4, 2, 8], "cfg", "max_generations"))
+    run.op("two fuzz() calls on one object; same settings=%s" % same_settings)
+    n_total = 0
+    for call in range(2):
+        etext, epred = extras[ch.draw(len(extras), "work", "extra-%d" % call)]
+        settings = dict(base)
+        if not same_settings and call == 1:
+            settings["population_size"] = settings["population_size"] + 1
+        sols = f.fuzz(extra_constraints=list(spec.extra_constraints) + [etext], desired_solutions=ch.rng_range(2, 6, "work", "n-sol"), **settings)
+        run.op("call %d: extra constraint %r -> %d solution(s)" % (call, etext, len(sols)))
+        run.event("call", call, etext, [str(s_) for s_ in sols])
+        for sol in sols:
+            n_total += 1
+            run.probe("solution_emitted")
+            model = deriv.to_model(sol)
+            if not spec.harness_accepts(model):
+                run.violation("C02", "emitted-solution-violates-constraint", "emitted:two-call:spec-constraint", "call %d emitted %r which violates a constraint of the spec\nspec:\n%s" % (call, str(sol)[:160], text))
+            elif not epred(model):
+                run.violation("C02", "emitted-solution-violates-constraint", "emitted:two-call:extra-constraint-of-this-call", "fuzz(extra_constraints=[%r]) (call %d on the same object) emitted %r which violates that extra constraint\nspec:\n%s" % (etext, call, str(sol)[:160], text))
+    run.steps = n_total
+    run.nontrivial = n_total >= 2
+    run.info = {"solutions": n_total, "same_settings": same_settings}
+    run.state(("two-call", same_settings, min(n_total, 4)))
 
 
 def _drive_d2(run, mon, spec, text, strat, settings, emitted, emitted_snap, changed):
